@@ -188,7 +188,9 @@ def add_surface_object(optic, op, cache=None):
     prev = sg.surfaces[k - 1]
     # local z = vertex of the previous surface + the gap given for it
     z = f(sg.positions[k - 1]) + op['via_object'].get('gap', 0.0)
-    parent = CoordinateSystem(**op['via_object']['parent'])
+    # without a 'parent' entry: a ready-made surface in the lens's own frame
+    parent = CoordinateSystem(**op['via_object']['parent']) \
+        if op['via_object'].get('parent') else None
     cs = CoordinateSystem(x=kw.get('dx', 0), y=kw.get('dy', 0), z=z,
                           rx=kw.get('rx', 0), ry=kw.get('ry', 0),
                           reference_cs=parent)
